@@ -337,6 +337,7 @@ fn chan_finish(led: &Led, r: &mut Report) {
             return;
         }
         if l.sent_ok[id] && l.received[id] == 0 {
+            r.fail("C11", "accepted-value-not-delivered", format!("send of message {}/{} reported success but no consumer received it although a consumer drained the channel to the end", p, s));
             r.fail("C08", "accepted-value-lost", format!("send of message {}/{} reported success but no consumer received it although a consumer drained the channel to the end", p, s));
             return;
         }
